@@ -294,6 +294,7 @@ typedef long cholmod_common; typedef long cholmod_sparse;     /* opaque here: on
 /* members (R1); the parameter `knots` shadows the member, `this->knots` becomes vp_this_knots (R14) */
 uint32_t ndim; uint32_t* order; double** vp_this_knots; uint64_t* nknots; double** extents; uint64_t* naxes; uint64_t* strides; float* coefficients;
 int vp_thrown;                                     /* ghost: an exception has been thrown (R7) */
+bool vp_guard_armed; void release(void); void vp_fill_null(void* first, void* last);   /* scope guard (R28), std::fill(..., nullptr) */
 long vp_data_ptr;                                  /* stands for &data */
 void* vp_new(size_t elsize, size_t n); void* vp_allocate(size_t elsize, size_t n);
 void  vp_copy(const void* first, const void* last, void* out);
@@ -336,9 +337,24 @@ def fit_function():
     body = r.sub("R15_get", r"\.get\(\)", "", body, must_fire=True)
     body = r.sub("R17_allocate", r"allocate<([\w]+)>\((.*?)\)(\s*[;+])", r"((\1*)vp_allocate(sizeof(\1), \2))\3", body, must_fire=True)
     body = r.sub("R10_initializer", r"\(monodim==no_monodim\?-1:\(int\)monodim\)", "(monodim==no_monodim?(uint32_t)-1:(uint32_t)(int)monodim)", body)
-    for bad in ("std::", "this->", "unique_ptr", "allocate<", ".size()", ".begin()", ".data()"):
-        if bad in body: raise ExtractionError("fit(): unhandled C++ construct '%s' left after the rewrite rules" % bad)
+    body = r.sub("R16_fill_null", r"std::fill\(([^;]*?),\s*nullptr\);", r"vp_fill_null(\1);", body)
+    body = void_scope_guard(r, body, "fit_guard")
+    for bad in ("std::", "this->", "unique_ptr", "allocate<", ".size()", ".begin()", ".data()", "guard"):
+        if bad in body.replace("vp_guard_armed", ""): raise ExtractionError("fit(): unhandled C++ construct '%s' left after the rewrite rules" % bad)
     return Extracted("fit", FIT_HEADER, body, r, FIT_H, X.find_loops(body))
+
+def void_scope_guard(r, body, name):
+    """R28 (void functions): `struct NAME{ splinetable& table; bool armed; ~NAME(){ if(armed) table.release(); } } guard{*this,true};`
+    becomes the flag vp_guard_armed; the guard's destructor is spelled out before every later `return;` and at the end of the body"""
+    m = re.search(r"struct %s\{\s*splinetable& table;\s*bool armed;\s*~%s\(\)\{\s*if\(armed\)\s*table\.release\(\);\s*\}\s*\}\s*guard\{\*this,\s*true\};" % (name, name), body)
+    r.counts["R28_scope_guard"] = r.counts.get("R28_scope_guard", 0) + (1 if m else 0)
+    if not m: return body
+    head, tail = body[:m.start()], body[m.end():]
+    tail, n = re.subn(r"(?<![A-Za-z0-9_])return;", "{ if (vp_guard_armed) release(); return; }", tail)
+    tail = r.sub("R28_guard_disarm", r"\bguard\.armed\s*=\s*false;", "vp_guard_armed = false;", tail)
+    k = tail.rstrip().rfind("}")
+    tail = tail[:k] + "if (vp_guard_armed) release();\n" + tail[k:]
+    return head + "vp_guard_armed = true;" + tail
 
 # ---------------------------------------------------------------------------
 # splinetable::permuteDimensions (permute.h): whole-function extraction for exact execution (C15)
@@ -538,7 +554,7 @@ void* vp_new(size_t elsize, size_t n); void* vp_allocate(size_t elsize, size_t n
 void  vp_copy(const void* first, const void* last, void* out);
 void  vp_fill(void* first, void* last, long value);                              /* std::fill on integers */
 void  vp_fill_null(void* first, void* last);                                     /* std::fill(first, last, nullptr) */
-void  vp_fill_n(void* first, size_t n, long value);
+void  vp_fill_n_long(void* first, size_t n, long value);
 void  vp_key_name(char* out, const char* prefix, long i);                        /* ostringstream: ss << prefix << i */
 void  vp_copy_reverse_long_u64(const long* a, size_t n, uint64_t* out);          /* std::copy(a.rbegin(), a.rend(), out) */
 void  vp_partial_product_long_u64(const long* first, const long* last, uint64_t* out);  /* std::partial_sum(first,last,out,multiplies<uint64_t>) */
@@ -547,7 +563,9 @@ int64_t vp_product_long_i64(const long* first, const long* last);               
 size_t strlen(const char*); int strncmp(const char*, const char*, size_t);
 int snprintf(char*, size_t, const char*, ...);
 /* cfitsio (assumed contract: specs/fitsmodel.py) */
-int fits_open_file(fitsfile** f, const char* name, int mode, int* status);
+int fits_open_file(fitsfile** f, const char* name, int mode, int* status); int fits_open_diskfile(fitsfile** f, const char* name, int mode, int* status);
+int fits_create_file(fitsfile** f, const char* name, int* status);
+bool read_fits_core(fitsfile* fits); void write_fits_core(fitsfile* fits);
 int fits_get_num_hdus(fitsfile* f, int* n, int* status); int fits_movabs_hdu(fitsfile* f, int n, int* type, int* status);
 int fits_get_img_dim(fitsfile* f, int* naxis, int* status); int fits_get_img_size(fitsfile* f, int maxdim, long* naxes, int* status);
 int fits_get_hdrspace(fitsfile* f, int* nexist, int* nmore, int* status); int fits_read_keyn(fitsfile* f, int n, char* key, char* value, char* comm, int* status);
@@ -649,10 +667,23 @@ def fits_functions():
     body = r.sub("R14_this", r"this->naxes", "(*vp_this_naxes_p)", body, must_fire=True)
     body = r.sub("R15_unique_ptr_array", r"std::unique_ptr<(\w+)\[\]>\s+(\w+)\(new \1\[(.*?)\]\);", r"\1* \2 = (\1*)vp_new(sizeof(\1), \3);", body, must_fire=True)
     body = r.sub("R15_get", r"\.get\(\)", "", body, must_fire=True)
-    body = r.sub("R16_fill_n", r"std::fill_n\(", "vp_fill_n(", body, must_fire=True)
+    body = r.sub("R16_fill_n", r"std::fill_n\(", "vp_fill_n_long(", body, must_fire=True)
     body = r.sub("R6_numeric_limits", r"std::numeric_limits<long>::max\(\)", "LONG_MAX", body, must_fire=True)
     _no_cxx_left("write_fits_core", body)
     out["write_fits_core"] = Extracted("write_fits_core", "void write_fits_core(fitsfile* fits)", body, r, FITSIO_H, X.find_loops(body))
+    # --- disk wrappers (emptiness guards, open / create); the RAII guard that closes the file is dropped (R25)
+    for wname, hdr, ret in (("read_fits", "bool read_fits(const char* filePath)", "false"), ("write_fits", "void write_fits(const char* filePath)", "")):
+        start, header, body, end = X.find_function(s, r"splinetable<Alloc>::%s\s*\(" % wname)
+        r = X.Rules(); r.counts["R1_member"] = 1
+        body = _fits_common(r, body, "{ vp_thrown = 1; return %s; }" % ret)
+        for rule in ("R7_throw", "R25_raii_guard"):
+            if not r.counts.get(rule): raise ExtractionError("must-fire rule %s did not fire in %s" % (rule, wname))
+        body = r.sub("R18_c_str", r"\(\"!\"\+filePath\)\.c_str\(\)", "filePath", body)            # "!" = overwrite an existing file (modelled by the disk)
+        body = r.sub("R18_c_str", r"filePath\.c_str\(\)", "filePath", body)
+        body = r.sub("R29_path_argument", r"read_fits_core\(fits,\s*filePath\)", "read_fits_core(fits)", body)
+        if wname == "write_fits": body = r.sub("R29_exception_exit", r"write_fits_core\(fits\);", "write_fits_core(fits); if (vp_thrown) return;", body, must_fire=True)
+        _no_cxx_left(wname, body)
+        out[wname] = Extracted(wname, hdr, body, r, FITSIO_H, X.find_loops(body))
     # --- size model
     start, header, body, end = X.find_function(s, r"splinetable<Alloc>::estimateMemory\s*\(")
     r = X.Rules(); r.counts["R1_member"] = 1
